@@ -46,7 +46,7 @@ func ptr(v int64) *int64 { return &v }
 
 var poisonBad = []string{"noncrit", "int", "empty", "octet", "trail", "noncrit-int"}
 
-var perturbOps = []string{"drop", "drop", "cut", "swap", "swap", "dup", "insert", "insert", "approot", "approot", "flip", "flip", "resign", "trunc", "sibling", "sibling", "sibling", "twin", "twin", "oldself", "oldself", "oldself", "leafroot"}
+var perturbOps = []string{"drop", "drop", "cut", "swap", "swap", "dup", "insert", "insert", "approot", "approot", "flip", "flip", "resign", "trunc", "sibling", "sibling", "sibling", "twin", "twin", "oldself", "oldself", "oldself", "merge", "shift", "emptyentry", "trail", "leafroot"}
 
 func genCase(t *rapid.T, http bool) Case {
 	var c Case
